@@ -18,8 +18,16 @@
        (`compile_correct_statements`): block scopes pushed and popped, statements sequenced with the dropped value freed, `def`
        binding a fresh register (copy) or aliasing a named immutable local, the environment of `Lang/Sem` (boxes) tied to registers
        by an invariant split into a compile-time and a run-time part.
-       NOT proved: the same for `if` / `var` / `set` / `while` / `fn`, calls with other argument counts, the error
-       outcome, tail position, far registers (see `compile_correct_partial` for the exact list). -/
+       Session 4, second part: the induction is generic in the fragment and carries two more facts (`NameFrame`: nameless
+       registers stay nameless / named result registers had a name; the source map stays as long as the code); proved on top
+       of it: calls of global core functions with ANY number of operands (`compile_correct_nary_calls`: operand slots held
+       together, PUSH_3 / PUSH_2 / PUSH grouping), calls through a local holding a core function (`compile_correct_local_calls`),
+       `if` (`compile_correct_if`: jumps under label patches, both branches, value used or dropped; the branch not taken through a
+       compile-only shape theorem), such a call in tail position (`compile_correct_tail_calls`: TAILCALL, next step = the return),
+       the error outcome of a call whose core function raises (`compile_correct_call_error`: same error value, same source position,
+       same effect trace).
+       NOT proved: `var` / `set`, `while` / `break`, `fn` / closures, error propagation through enclosing forms, tail position of
+       the forms other than calls, far registers (see `compile_correct_partial` for the exact list and the reasons). -/
 import JanetModel.Emit.Proofs
 import JanetModel.Bytecode.Exec
 import JanetModel.Lang.SemProps
@@ -665,23 +673,27 @@ example : ({ tail := true } : Fopts).tail = true ∧ ({ tail := true } : Fopts).
     to a constant slot, emit no code and leave scopes and buffer untouched.
     Proved since: `compile_correct_statements` (`do`, `upscope`, `def` of a symbol in a local scope, sequencing, dropped values),
     `compile_correct_nary_calls` (calls of global core functions with any number of operands: PUSH / PUSH_2 / PUSH_3 grouping,
-    operands held together), `compile_correct_tail_calls` (such a call in tail position: TAILCALL, the next VM step is the
-    return of the value), and — see `compile_correct_if` below when present — `if` with a call as condition.
-    Missing, exactly: (1) calls through locals and computed heads (the callee may be a closure: needs closures in the VM relation;
-    no semantic side condition available to exclude them); (2) `if` whose condition compiles to a constant (the
-    constant-condition folding of `janetc_if`: `janetc_throwaway` truncates the source map by the CODE length, so the induction
-    must carry `map.length = buf.length`; not threaded yet) or to a local symbol; `var` / `set` (a register that is written:
-    the invariant needs injectivity of mutable names' registers — `(def y x)` aliases only immutable locals — and the induction
-    hypothesis must be generalised to a compile with a HINT slot, since `set` compiles its value with the variable as hint and
-    calls / `if` then write the variable's register directly; with `set` in the fragment the n-ary call needs the side condition
-    that no operand is a variable a later operand sets: janet reads operand registers when the call is made), destructuring `def`,
-    `while` / `break`, `fn` / closures / upvalues (`janetc_popscope`'s `keep` reservations are modelled and compared word for word,
-    not proved); (3) the error outcome (same error value at the source-map position: `Correct2` hides the emitted `map` segment;
-    needs the funcdef's source map tied to it like `hK` ties the constants), tail position of the forms other than calls (RETURN
-    after a literal / symbol / `def`; the tail flag passed into `do` / `if`), the top-level scope (`sc.top`: calls are never tail
-    calls there, `def` makes globals); (4) far registers (`lim` > 0xF0: the `emit_*_correct` theorems cover the emit layer, not yet
-    connected).  Every construct outside these theorems stays translation-validated: model = real compiler word for word, real
-    bytecode run by the Lean VM = real VM = `Lang/Sem`. -/
+    operands held together), `compile_correct_local_calls` (calls through a local holding a core function),
+    `compile_correct_if` (`if`, jump path), `compile_correct_tail_calls` (a call in tail position: TAILCALL, the next VM step is
+    the return of the value), `compile_correct_call_error` (a raising core function: same error value at the same position).
+    Missing, exactly: (1) calls whose callee is a closure or a computed head (needs closures in the VM relation); (2) `if` whose
+    condition compiles to a CONSTANT (literal / global symbol: the constant-condition folding of `janetc_if`; `janetc_throwaway`
+    truncates the source map by the CODE length — the induction now carries `map.length = buf.length` for it, the case itself is
+    the next step) — the fragment asks for a call form as condition (`IsCall`), although `if_jump_core` already covers every
+    non-constant condition slot (a local symbol too); `var` / `set` (a register that is written: the frame clause "every register
+    allocated at entry keeps its content" and the prefix-stability of the boxes become false and must be restated relative to the
+    mutable names a form reaches; the invariant needs injectivity of mutable names' registers — `(def y x)` aliases only immutable
+    locals — and of boxes; the induction hypothesis must be generalised to a compile with a HINT slot, since `set` compiles its
+    value with the variable as hint and calls / `if` then write the variable's register directly; with `set` in the fragment the
+    n-ary call needs the side condition that no operand is a variable a later operand sets: janet reads operand registers when
+    the call is made), destructuring `def`, `while` / `break` (`.brk` is a third outcome of every form; the placeholder rewrite
+    needs "no break tag in the code of a fragment form"), `fn` / closures / upvalues (`janetc_popscope`'s `keep` reservations are
+    modelled and compared word for word, not proved); (3) error PROPAGATION (an error raised inside an operand / statement /
+    branch: the code after the failing sub-form has no semantic run; needs `max` monotone in the compile-only shape facts), tail
+    position of the forms other than calls (RETURN after a literal / symbol / `def`; the tail flag passed into `do` / `if`), the
+    top-level scope (`sc.top`: calls are never tail calls there, `def` makes globals); (4) far registers (`lim` > 0xF0: the
+    `emit_*_correct` theorems cover the emit layer, not yet connected).  Every construct outside these theorems stays
+    translation-validated: model = real compiler word for word, real bytecode run by the Lean VM = real VM = `Lang/Sem`. -/
 theorem compile_correct_partial (fuel : Nat) (opts : Fopts) (c : CState) (hopts : opts.tail = false ∧ opts.hint = none) :
     (∀ v : Value, (match v with | .nil | .bool _ | .num _ | .str _ | .kw _ | .sym _ | .cfun _ => True | _ => False) →
         cValue (fuel + 1) opts (.lit v) c = some ((constSlot c v).1, { (constSlot c v).2 with cur := c.cur }) ∧
